@@ -69,12 +69,13 @@ def _call_of(stmt):
 def expand(facts, fn, allow=None, depth=2):
     """Copy of fn with helper calls in statement position inlined (see module doc).  Returns fn itself when nothing applies."""
     if fn.get('body') is None: return fn
-    stack = [fn['q']]
+    def fkey(f): return (f['q'], f['file'], f['l'])       # overloads share a qualified name
+    stack = [fkey(fn)]
     changed = [False]
     def inlinable(call):
         callee = facts.callee(fn, call)
         if callee is None or callee.get('body') is None or callee.get('dep'): return None
-        if callee['file'] != fn['file'] or callee['q'] in stack: return None
+        if callee['file'] != fn['file'] or fkey(callee) in stack: return None
         if call.get('k') == 'CXXMemberCallExpr':
             o = A.strip(call.get('obj'), casts=True)
             if o is not None and o.get('k') != 'CXXThisExpr': return None
@@ -97,7 +98,7 @@ def expand(facts, fn, allow=None, depth=2):
             if callee is not None:
                 args = call.get('args') or []
                 mapping = {p['id']: a for p, a in zip(callee['params'], args)}
-                stack.append(callee['q'])
+                stack.append(fkey(callee))
                 body = tx(_subst(copy.deepcopy(callee['body']), mapping), d - 1)
                 stack.pop()
                 changed[0] = True
@@ -124,19 +125,20 @@ def expand(facts, fn, allow=None, depth=2):
 def closure_bodies(facts, fn, depth=2, allow=None):
     """Body of fn plus the bodies of the same-file helpers it calls on `this` (or free functions), transitively to `depth`:
     for rules that ask "does this function (by itself or through a helper it was split into) contain ...?"."""
-    out = []; seen = {fn['q']}
+    def fkey(f): return (f['q'], f['file'], f['l'])
+    out = []; seen = {fkey(fn)}
     def rec(f, d):
         out.append(f['body'])
         if d == 0: return
         for call in A.calls_in(f['body'], no_lambda=True):
             if call.get('k') not in ('CallExpr', 'CXXMemberCallExpr'): continue
             callee = facts.callee(f, call)
-            if callee is None or callee.get('body') is None or callee.get('dep') or callee['q'] in seen or callee['file'] != fn['file']: continue
+            if callee is None or callee.get('body') is None or callee.get('dep') or fkey(callee) in seen or callee['file'] != fn['file']: continue
             if call.get('k') == 'CXXMemberCallExpr':
                 o = A.strip(call.get('obj'), casts=True)
                 if o is not None and o.get('k') != 'CXXThisExpr': continue
             if allow is not None and not allow(callee, call): continue
-            seen.add(callee['q'])
+            seen.add(fkey(callee))
             rec(callee, d - 1)
     if fn.get('body') is not None: rec(fn, depth)
     return out
